@@ -128,21 +128,21 @@ def e2e_cases(prop, tier, rng):
     if prop == 'C01':
         fm = ('f64',)
         cs = g_rand(rng, 2500 * k, fm) + g_mid(rng, 2500 * k, fm) + [c for c in g_fast(rng, 400 * k) if c.fmt == 'f64'] + \
-            g_seam(rng, 300 * k, fm) + g_ext(rng, 300 * k, fm, big) + g_sub(rng, 400 * k, fm) + g_trunc(rng, 300 * k, fm) + nt_pf_cases('f64', rng, scale(tier, 3, 30)) + tie_pf_cases('f64', rng, scale(tier, 12, 100)) + g_dec(rng, fm, scale(tier, 500, 20000)) + g_zlimb(rng, scale(tier, 150, 3000)) + g_topcarry(rng, scale(tier, 150, 3000)) + g_limbmid(rng, fm)
+            g_seam(rng, 300 * k, fm) + g_ext(rng, 300 * k, fm, big) + g_sub(rng, 400 * k, fm) + g_trunc(rng, 300 * k, fm) + nt_pf_cases('f64', rng, scale(tier, 3, 30)) + tie_pf_cases('f64', rng, scale(tier, 12, 100)) + g_dec(rng, fm, scale(tier, 500, 20000)) + g_zlimb(rng, scale(tier, 150, 3000)) + g_topcarry(rng, scale(tier, 150, 3000)) + g_midcut(rng, scale(tier, 300, 5000), fm) + g_limbmid(rng, fm)
     elif prop == 'C02':
         fm = ('f32',)
         cs = g_rand(rng, 2500 * k, fm) + g_mid(rng, 3000 * k, fm) + [c for c in g_fast(rng, 400 * k) if c.fmt == 'f32'] + \
-            g_seam(rng, 300 * k, fm) + g_ext(rng, 300 * k, fm, big) + g_sub(rng, 400 * k, fm) + g_trunc(rng, 300 * k, fm) + nt_pf_cases('f32', rng, scale(tier, 8, 60)) + tie_pf_cases('f32', rng, scale(tier, 12, 100)) + g_dec(rng, fm, scale(tier, 500, 20000)) + g_limbmid(rng, fm)
+            g_seam(rng, 300 * k, fm) + g_ext(rng, 300 * k, fm, big) + g_sub(rng, 400 * k, fm) + g_trunc(rng, 300 * k, fm) + nt_pf_cases('f32', rng, scale(tier, 8, 60)) + tie_pf_cases('f32', rng, scale(tier, 12, 100)) + g_dec(rng, fm, scale(tier, 500, 20000)) + g_midcut(rng, scale(tier, 200, 3000), fm) + g_limbmid(rng, fm)
     elif prop == 'C04':
-        cs = g_seam(rng, 600 * k) + g_ext(rng, 1200 * k, big=big) + g_rand(rng, 2000 * k) + g_sub(rng, 300 * k) + g_mid(rng, 600 * k) + g_long(rng, scale(tier, 6, 40), big) + g_zlimb(rng, scale(tier, 200, 3000)) + g_topcarry(rng, scale(tier, 100, 2000)) + g_limbmid(rng)
+        cs = g_seam(rng, 600 * k) + g_ext(rng, 1200 * k, big=big) + g_rand(rng, 2000 * k) + g_sub(rng, 300 * k) + g_mid(rng, 600 * k) + g_long(rng, scale(tier, 6, 40), big) + g_zlimb(rng, scale(tier, 200, 3000)) + g_topcarry(rng, scale(tier, 100, 2000)) + g_midcut(rng, scale(tier, 200, 3000)) + g_limbmid(rng)
     elif prop == 'C05':
-        cs = g_rand(rng, 2500 * k) + g_mid(rng, 2500 * k) + g_fast(rng, 300 * k) + g_seam(rng, 200 * k) + g_ext(rng, 200 * k) + g_sub(rng, 300 * k) + g_trunc(rng, 300 * k) + g_dec(rng, extra=scale(tier, 500, 20000)) + g_zlimb(rng, scale(tier, 100, 2000)) + g_topcarry(rng, scale(tier, 150, 3000)) + g_limbmid(rng) + tie_pf_cases('f64', rng, scale(tier, 6, 60)) + tie_pf_cases('f32', rng, scale(tier, 6, 60))
+        cs = g_rand(rng, 2500 * k) + g_mid(rng, 2500 * k) + g_fast(rng, 300 * k) + g_seam(rng, 200 * k) + g_ext(rng, 200 * k) + g_sub(rng, 300 * k) + g_trunc(rng, 300 * k) + g_dec(rng, extra=scale(tier, 500, 20000)) + g_zlimb(rng, scale(tier, 100, 2000)) + g_topcarry(rng, scale(tier, 150, 3000)) + g_midcut(rng, scale(tier, 300, 5000)) + g_limbmid(rng) + tie_pf_cases('f64', rng, scale(tier, 6, 60)) + tie_pf_cases('f32', rng, scale(tier, 6, 60))
     elif prop == 'C06':
         cs = g_mid(rng, 3500 * k, deep=(20, 21, 40, 100, 400, 767, 768, 769, 770, 771, 1000, 5000)) + g_trunc(rng, 1500 * k) + \
-            [c for c in g_seam(rng, 600 * k)] + g_long(rng, scale(tier, 8, 60), big) + g_limbmid(rng) + g_topcarry(rng, scale(tier, 100, 2000))
+            [c for c in g_seam(rng, 600 * k)] + g_long(rng, scale(tier, 8, 60), big) + g_limbmid(rng) + g_topcarry(rng, scale(tier, 100, 2000)) + g_midcut(rng, scale(tier, 300, 5000))
         cs = [c for c in cs if len((c.i + c.f).lstrip('0')) >= 20]
     elif prop == 'C07':
-        cs = g_sub(rng, 2500 * k) + g_ext(rng, 1500 * k, big=big) + g_mid(rng, 1500 * k, edge_only=True) + zero_sig_cases(rng, 100 * k) + [c for c in g_dec(rng) if abs(c.e) > (280 if c.fmt == 'f64' else 30)]
+        cs = g_sub(rng, 2500 * k) + g_ext(rng, 1500 * k, big=big) + g_mid(rng, 1500 * k, edge_only=True) + zero_sig_cases(rng, 100 * k) + [c for c in g_dec(rng) if abs(c.e) > (280 if c.fmt == 'f64' else 30)] + g_midcut(rng, scale(tier, 400, 6000), edge_only=True) + g_midcut(rng, scale(tier, 100, 2000))
     return cs
 
 
@@ -463,6 +463,20 @@ def g_pair(rng, n, fmts=('f64', 'f32')):
                 g.append(PF(c.fmt, i, f, e, 'G-PAIR/' + c.fam.split('/')[0]))
         if len(g) >= 2:
             groups.append(g)
+    # decade fences: 99..9 < 100..0 < 100..01 for every digit count, across every decimal exponent of
+    # the range (the significand changes its number of digits; scientific_exponent's last step)
+    for fmt in fmts:
+        lo, hi = (-345, 310) if fmt == 'f64' else (-70, 42)
+        for q in range(lo, hi):
+            if rng.below(max(1, (hi - lo) * 19 // max(1, n // 6))) != 0:
+                continue
+            for L in range(1, 20):
+                w = 10 ** L
+                g = []
+                for d in (w - 1, w, w + 1):
+                    i, f, e = split_decimal(str(d), q - L, rng, 0)
+                    g.append(PF(fmt, i, f, e, 'G-PAIR/decade'))
+                groups.append(g)
     return groups
 
 
@@ -523,6 +537,8 @@ def g_split(rng, n, fmts=('f64', 'f32')):
     for fmt in fmts:
         base += [c for c in tie_pf_cases(fmt, rng, max(2, n // 800)) if c.fam == 'G-TIE']
     base += [c for c in g_dec(rng, fmts) if rng.below(12) == 0]
+    # big-integer stage: zero limbs, top-limb carries, boundaries cut at a decimal digit (exponent >= 135)
+    base += g_zlimb(rng, max(20, n // 25)) + g_topcarry(rng, max(20, n // 25)) + g_midcut(rng, max(40, n // 12), fmts)
     for c in base:
         s = (c.i + c.f)
         if not s.strip('0') or not is_valid(c.i, c.f, c.e):
